@@ -129,17 +129,27 @@ CAUSES = [
      "{'ctr', 'lr', 'npc'}"),
 ]
 
-union = " | ".join("((%s) if (%s) else set())" % (allowed, active) for (_, _, _, active, allowed) in CAUSES)
+# id -> commit of the repair in /repo.  The lead adds an entry here when a fix patch has been applied and re-runs
+# this script: the entry becomes status "fixed" (suppresses nothing) and its components leave the union below.
+FIXED = {
+}
+
+live = [c for c in CAUSES if c[0] not in FIXED]
+union = " | ".join("((%s) if (%s) else set())" % (allowed, active) for (_, _, _, active, allowed) in live) or "set()"
 findings = []
 for (cid, what, manual, active, allowed) in CAUSES:
     match = ("(lambda x, e: (lambda a, mn, t, D, f: len(D) > 0 and (%s) and D <= (%s))"
              "(x['arch'], x['mn'], set(x['tags']), set(x['diff']), x['d']))(r['expected'], e)") % (active, union)
-    findings.append({
-        "id": cid, "property": "C02", "status": "known", "what": what, "manual": manual,
+    entry = {
+        "id": cid, "property": "C02", "status": "fixed" if cid in FIXED else "known", "what": what, "manual": manual,
         "signature": {"active_when": active, "components": allowed},
         "replay": "known_findings/C02.replays/%s.json" % cid,
         "match": match,
-    })
+    }
+    if cid in FIXED:
+        entry["commit"] = FIXED[cid]
+        entry["record"] = "fixed: property=C02 %s %s" % (FIXED[cid], what)
+    findings.append(entry)
 
 out = {
     "_comment": "Generated by parts/C02.known_findings.gen.py - edit the generator, not this file. Genuine defects of falcon's "
